@@ -103,7 +103,29 @@ def digit_sweep(ctx: Ctx, T, P, Message, thorough: bool) -> None:
     delivered as a packet goes through Message(): only the invalid-packet error may leave it."""
     rng = ctx.rng
     seen, n = set(), 0
-    for _, _, line in corpus.log_lines():
+    base = [ln for _, _, ln in corpus.log_lines()]
+    # ... plus frames no log holds: what the library's own puzzle constructor emits (every message type), and one generated payload for every
+    # (verb, code) of the schema
+    try:
+        from ramses_tx.command import Command  # noqa: PLC0415
+        from ramses_tx.parsers import LOOKUP_PUZZ  # noqa: PLC0415
+        from ramses_tx.ramses import CODES_SCHEMA  # noqa: PLC0415
+
+        base += ["000 " + str(Command._puzzle(msg_type=t, message="hello world")) for t in LOOKUP_PUZZ]
+        for code, d in CODES_SCHEMA.items():
+            for verb in (" I", "RQ", "RP", " W"):
+                if verb in d:
+                    try:
+                        pl = corpus.gen_regex(d[verb], rng)
+                    except ValueError:
+                        continue
+                    if 2 <= len(pl) <= 96 and len(pl) % 2 == 0:
+                        base.append(f"045 {verb} --- 01:145038 --:------ 01:145038 {code} {len(pl) // 2:03d} {pl}" if verb == " I"
+                                    else f"045 {verb} --- 18:000730 01:145038 --:------ {code} {len(pl) // 2:03d} {pl}" if verb in ("RQ", " W")
+                                    else f"045 {verb} --- 01:145038 18:000730 --:------ {code} {len(pl) // 2:03d} {pl}")
+    except Exception as err:  # noqa: BLE001
+        ctx.notes.append(f"digit sweep: constructor / schema frames unavailable: {type(err).__name__}: {err}")
+    for line in base:
         line = line.split("#")[0].split("*")[0].split("<")[0].rstrip()      # the frame itself: no comment / error / hint
         f = line.split()
         if len(f) < 8 or not re.fullmatch(r"[0-9A-F]+", f[-1]):
@@ -115,7 +137,9 @@ def digit_sweep(ctx: Ctx, T, P, Message, thorough: bool) -> None:
         pay0 = line.rfind(f[-1])
         for pos, ch in enumerate(line):
             in_addr = ch.isdigit() and pos < pay0 - 9 and ":" in line[max(0, pos - 9):pos + 9] and line[max(0, pos - 3):pos + 1].count(" ") <= 1
-            if pos >= pay0 and ch in "0123456789ABCDEF":
+            if pay0 <= pos < pay0 + 8 and ch in "0123456789ABCDEF":
+                alts = set("0123456789ABCDEF") - {ch}       # the first four bytes select index / type / sub-format: every value
+            elif pos >= pay0 and ch in "0123456789ABCDEF":
                 alts = {"0", "4", "7", "8", "F", rng.choice("0123456789ABCDEF"), rng.choice("0123456789ABCDEF")} - {ch}
             elif in_addr:
                 alts = set("0123456789") - {ch}
